@@ -203,7 +203,7 @@ class DelaySweepFamily(Family):
             u.add_result(dry, base, "C08", nontrivial=True, keep_sample=(bi % 20 == 0))
         rec = dry.info.get("line_record") or []
         first, last = {}, {}
-        for name, k, fn, ln, nlocks in rec:
+        for name, k, fn, ln, nlocks, *_ in rec:
             if nlocks or not name.startswith("c"):
                 continue
             first.setdefault((name, fn, ln), k)
@@ -218,7 +218,51 @@ class DelaySweepFamily(Family):
         return u
 
 
+class OpcodeSweepFamily(DelaySweepFamily):
+    """The same single-delay exploration at bytecode granularity, for the functions through
+    which one thread looks at a connection another thread is using (the predicates the
+    pool's passes call: has_expired, is_idle, is_available, is_closed, can_handle_request,
+    info): the thread is parked before each instruction of theirs (first and last
+    occurrence) - whether or not it holds the pool lock - until nobody else can move."""
+
+    SLICES = 12
+    PREDICATES = {"has_expired", "is_idle", "is_available", "is_closed", "can_handle_request",
+                  "info", "is_connecting", "is_queued"}
+    OPTS = dict(DelaySweepFamily.OPTS, expiries=[5.0, 5.0, None, 0.05],
+                policies=[{"mode": "delay", "opcodes": True}])
+
+    def run_unit(self, seed, index, tier):
+        from ..core import sub_seed
+
+        u = Unit()
+        bi, sl = divmod(index, self.SLICES)
+        bseed = sub_seed(getattr(self, "check_seed", 0), self.name, "base", bi)
+        base = gen_poolmix(bseed, "quick", self.OPTS)
+        base["net"]["seg"] = "whole" if base["net"]["seg"] in ("byte", "evil") else base["net"]["seg"]
+        pol = {"mode": "delay", "op_p": 0.5, "opcodes": True}
+        base["policy"] = dict(pol)
+        dry = self.run_scenario(dict(base, policy=dict(pol, record=True)))
+        if sl == 0:
+            u.add_result(dry, base, "C08", nontrivial=True, keep_sample=(bi % 20 == 0))
+        rec = dry.info.get("line_record") or []
+        first, last = {}, {}
+        for name, k, fn, ln, nlocks, func, lasti in rec:
+            if func not in self.PREDICATES or not name.startswith("c"):
+                continue
+            first.setdefault((name, fn, ln, lasti), k)
+            last[(name, fn, ln, lasti)] = k
+        points = sorted({(key[0], k) for key, k in first.items()}
+                        | {(key[0], k) for key, k in last.items()})
+        for name, k in points[sl::self.SLICES]:
+            s = copy.deepcopy(base)
+            s["policy"] = dict(pol, thread=name, step=k)
+            res = self.run_scenario(s)
+            u.add_result(res, s, "C08", nontrivial=True)
+        return u
+
+
 FAMS.append(DelaySweepFamily("threads-delay-sweep", 12, 400))
+FAMS.append(OpcodeSweepFamily("threads-opcode-sweep", 6, 200))
 
 register("C08", {
     "level": "exploration",
